@@ -61,6 +61,10 @@ def make_obs(ctx):
     obs.append(Ob('no-clock:with-base', 'C20_env.c', 'h_base_only', {'PART_CLOCK': 1}, units=DT_UNITS, unwind=50,
                   group='clock', remove_bodies=core.prune_cals(['ymd', 'daisy']),
                   bounds={'input': 'any record without a year, any valid base'}))
+    for (lo, hi) in ([(1969, 2038)] if ctx.tier == 'quick' else core.year_windows_full(400)):
+        obs.append(Ob('no-clock:time-of-day-epoch:%d-%d' % (lo, hi), 'C20_env.c', 'h_epoch_with_base', {'PART_CLOCK': 1, 'YLO': lo, 'YHI': hi},
+                      units=DT_UNITS, unwind=50, group='clock', remove_bodies=core.prune_cals(['ymd', 'daisy']),
+                      bounds={'input': 'any time of day, any valid base date in %d..%d' % (lo, hi)}))
     return obs
 
 
